@@ -115,6 +115,16 @@ def check_copydimension(ctx, rule='R-UNLIM'):
         if len(created) != 1 or length is None:
             ok_nc = ok_pnc = False
             continue
+        # a length chosen into a local first (`newlen = None` / `newlen = dimlen` in the branches, one createDimension(key, newlen)
+        # afterwards) is that value on this path
+        hops = 0
+        while isinstance(length, ast.Name) and length.id != 'dimlen' and hops < 4:
+            hops += 1
+            defs_ = [st for st in pth.stmts if isinstance(st, ast.Assign) and len(st.targets) == 1 and isinstance(st.targets[0], ast.Name) and st.targets[0].id == length.id
+                     and st.lineno <= cst.lineno]
+            if not defs_:
+                break
+            length = defs_[-1].value
         bound = [t.id for t in getattr(cst, 'targets', []) if isinstance(t, ast.Name)] if isinstance(cst, ast.Assign) and cst.value is call else []
         ret = pth.exit[1] if pth.exit[0] == 'return' else None
         returned = ret is not None and ((isinstance(ret, ast.Name) and ret.id in bound) or (isinstance(ret, ast.Call) and norm(ret) == norm(call))
